@@ -371,8 +371,14 @@ def run_call(rig, cmap, c):
             p.prop = 1
             o.value = ("v", None)
         elif kind == "i":
-            for item in p.stream():
-                o.yielded.append(item)
+            it = p.stream()
+            try:
+                for item in it:
+                    o.yielded.append(item)
+            finally:
+                # detach the iterator now: its __del__ would otherwise run whenever the garbage collector finds it (it
+                # hangs in the traceback's frame cycle), possibly in the daemon's own acceptor thread of this process
+                it.proxy = None
             o.value = ("end",)
         elif kind == "b":
             b = client.BatchProxy(p)
